@@ -24,11 +24,13 @@ import (
 	"encoding/hex"
 	"encoding/json"
 	"fmt"
+	"net"
 	"sort"
 	"strings"
 	"testing"
 
 	"github.com/KafScale/platform/pkg/acl"
+	"github.com/KafScale/platform/pkg/broker"
 	"github.com/KafScale/platform/pkg/metadata"
 	"github.com/KafScale/platform/pkg/protocol"
 	"github.com/KafScale/platform/pkg/storage"
@@ -67,6 +69,72 @@ type c24Case struct {
 	AutoCreate bool           `json:"auto_create"`
 	AdminAPIs  bool           `json:"admin_apis"`
 	Reqs       []c24Req       `json:"reqs"`
+	// connection dimension: all requests of the sequence share ONE connection context built by the
+	// real buildConnContextFunc. "" = client_id source without proxy protocol (no context at all),
+	// "client_id+proxy" = client_id source behind PROXY protocol (a context with empty Principal),
+	// "remote_addr" / "proxy_addr" = the principal is the host of the peer / PROXY source address.
+	Conn     string `json:"conn,omitempty"`
+	ConnHost string `json:"conn_host,omitempty"` // peer (remote_addr) or PROXY source (proxy_addr) host
+}
+
+// c24Conn is a net.Conn that only serves a PROXY v1 header and a peer address.
+type c24Conn struct {
+	net.Conn
+	r    *strings.Reader
+	peer string
+}
+type c24Addr string
+
+func (a c24Addr) Network() string             { return "tcp" }
+func (a c24Addr) String() string              { return string(a) }
+func (c *c24Conn) Read(b []byte) (int, error) { return c.r.Read(b) }
+func (c *c24Conn) RemoteAddr() net.Addr       { return c24Addr(c.peer) }
+func (c *c24Conn) LocalAddr() net.Addr        { return c24Addr("10.0.0.9:9092") }
+func (c *c24Conn) Close() error               { return nil }
+
+// c24ConnCtx builds the per-connection context exactly as the server does.
+func c24ConnCtx(t *testing.T, c c24Case) context.Context {
+	host := c.ConnHost
+	if host == "" {
+		host = "10.0.0.7"
+	}
+	src, proxy, peer := "client_id", "false", host+":40000"
+	switch c.Conn {
+	case "client_id+proxy":
+		proxy = "true"
+	case "remote_addr":
+		src = "remote_addr"
+	case "proxy_addr":
+		src, peer = "proxy_addr", "10.0.0.8:41000" // the socket peer is the proxy, the PROXY header names the client
+	}
+	t.Setenv("KAFSCALE_PRINCIPAL_SOURCE", src)
+	t.Setenv("KAFSCALE_PROXY_PROTOCOL", proxy)
+	fn := buildConnContextFunc(testLogger())
+	if fn == nil {
+		return context.Background()
+	}
+	_, info, err := fn(&c24Conn{r: strings.NewReader("PROXY TCP4 " + host + " 10.0.0.9 40000 9092\r\n"), peer: peer})
+	if err != nil {
+		t.Fatalf("conn context: %v", err)
+	}
+	return broker.ContextWithConnInfo(context.Background(), info)
+}
+
+// c24PrincipalOf: the principal of ONE request by the configuration's definition: the client id
+// of THAT request for the client_id source (blank -> anonymous), the connection's peer / PROXY
+// source host for the address sources. Never taken from the code under test.
+func c24PrincipalOf(c c24Case, r c24Req) string {
+	if c.Conn == "remote_addr" || c.Conn == "proxy_addr" {
+		host := c.ConnHost
+		if host == "" {
+			host = "10.0.0.7"
+		}
+		return host
+	}
+	if strings.TrimSpace(r.Principal) == "" {
+		return "anonymous"
+	}
+	return r.Principal
 }
 
 type c24Item struct {
@@ -544,6 +612,7 @@ func c24Run(t *testing.T, c c24Case) ([]c24Step, string, string, map[string]bool
 	}
 	h.authorizer = saved
 
+	connCtx := c24ConnCtx(t, c) // ONE connection for the whole sequence
 	var steps []c24Step
 	for i, r := range c.Reqs {
 		ids := map[string][16]byte{}
@@ -559,7 +628,7 @@ func c24Run(t *testing.T, c c24Case) ([]c24Step, string, string, map[string]bool
 		}
 		cid := r.Principal
 		hdr := &protocol.RequestHeader{APIKey: q.Key(), APIVersion: ver, CorrelationID: int32(10 + i), ClientID: &cid}
-		principal := principalFromContext(ctx, hdr)
+		principal := c24PrincipalOf(c, r)
 		st := c24Step{req: r, principal: principal, known: map[string]bool{}}
 		for n := range ids {
 			st.known[n] = true
@@ -575,7 +644,7 @@ func c24Run(t *testing.T, c c24Case) ([]c24Step, string, string, map[string]bool
 		if again := c24Snapshot(t, h, mem, s3); c24Diff(before, again, func(string) bool { return true }) != "" {
 			t.Fatalf("snapshot is not stable: %s", c24Diff(before, again, func(string) bool { return true }))
 		}
-		payload, err := h.Handle(ctx, hdr, q)
+		payload, err := h.Handle(connCtx, hdr, q)
 		after := c24Snapshot(t, h, mem, s3)
 		st.changed = c24Diff(before, after, func(string) bool { return true }) != ""
 		if err != nil {
@@ -891,6 +960,17 @@ func c24Gen(r *vRand) c24Case {
 	if c.Principals == nil {
 		c.Principals = []c24Principal{}
 	}
+	switch r.Intn(10) {
+	case 0, 1, 2:
+		c.Conn = "client_id+proxy"
+	case 3:
+		c.Conn, c.ConnHost = "remote_addr", "10.0.0.2"
+	case 4:
+		c.Conn, c.ConnHost = "proxy_addr", "10.0.0.2"
+	}
+	if c.ConnHost != "" && len(c.Principals) > 0 {
+		c.Principals[r.Intn(len(c.Principals))].Name = c.ConnHost // the address-named principal has rules of its own
+	}
 	// the generator knows the ACL: half of the list-shaped requests are made MIXED on purpose
 	// (>= 1 item the principal is permitted and >= 1 it is not)
 	cfg := acl.Config{Enabled: true, DefaultPolicy: c.Default}
@@ -1080,6 +1160,17 @@ func TestVerifC24(t *testing.T) {
 					c24Req{Kind: "CreateTopics", Principal: "p1", Names: []string{fmt.Sprintf("missingc%d", m)}, Mode: m},
 					c24Req{Kind: "OffsetForLeaderEpoch", Principal: "p1", Names: []string{fmt.Sprintf("missingo%d", m)}, Mode: m})
 			}
+			corpus = append(corpus, cs)
+		}
+		// one connection, the client id changes between requests: each request is authorised as ITS principal
+		for _, conn := range []string{"", "client_id+proxy", "remote_addr", "proxy_addr"} {
+			cs := c24Case{Default: "deny", AutoCreate: true, AdminAPIs: true, Conn: conn, ConnHost: "10.0.0.2",
+				Principals: []c24Principal{{Name: "writer", Allow: []c24Rule{{"produce", "topic", "*"}, {"group_write", "group", "*"}}, Deny: []c24Rule{}},
+					{Name: "reader", Allow: []c24Rule{{"fetch", "topic", "*"}}, Deny: []c24Rule{}},
+					{Name: "10.0.0.2", Allow: []c24Rule{{"fetch", "topic", "orders"}}, Deny: []c24Rule{}}},
+				Reqs: []c24Req{{Kind: "Produce", Principal: "writer", Names: []string{"orders"}, Acks: -1}, {Kind: "Produce", Principal: "reader", Names: []string{"orders"}, Acks: -1},
+					{Kind: "Fetch", Principal: "reader", Names: []string{"orders"}}, {Kind: "Fetch", Principal: "writer", Names: []string{"orders"}},
+					{Kind: "OffsetCommit", Principal: "reader", Names: []string{"g1"}}, {Kind: "Produce", Principal: "", Names: []string{"t1"}, Acks: -1}}}
 			corpus = append(corpus, cs)
 		}
 		for _, c := range corpus {
